@@ -434,8 +434,11 @@ def differential(res, prop, sub, cases, to_coq, requires, mismatch_fn, model_fn,
             failing.append((i, msg))
         if nontrivial is None or nontrivial(c, o):
             res.nontrivial.add(json.dumps(hcases[i], sort_keys=True))
+    from_group = set()
     if group_oracle:
-        failing += group_oracle(cases, obs)
+        gf = group_oracle(cases, obs)
+        from_group = {i for (i, _) in gf}
+        failing += gf
     for i, c in enumerate(cases[:3]):
         res.samples.append({"case": c, "impl_obs": obs[i]})
     reported = set()
@@ -448,7 +451,7 @@ def differential(res, prop, sub, cases, to_coq, requires, mismatch_fn, model_fn,
         if key in reported:
             continue
         reported.add(key)
-        if sig is None and confirm:
+        if sig is None and confirm and i not in from_group:     # a group verdict compares several runs: no single-case re-run
             again = confirm_failure(res, prop, sub, strip(c) if strip else c, c, oracle)
             if again is None:
                 continue
